@@ -98,6 +98,19 @@ fn seqs<C: CI>(ctx: &mut Ctx) {
             cell!(ctx, "{name}/exact-fit/{}/pad{}", len_class(a.bits, n), if pad == 0 { "0" } else if (pad * bits) % 64 == 0 { "word" } else { "unaligned" });
         }
     });
+    ctx.group(&format!("{name}/huge"), |ctx| {
+        // values of 2^10 .. 2^16 symbols (65 .. 2049 machine words), random and structured contents
+        for (k, n) in huge_lengths(ctx, a.bits).into_iter().enumerate() {
+            if k % 2 == 1 && n < 30000 {
+                continue; // every other length, and always the largest ones
+            }
+            let m = structured_codes(&mut ctx.rng, a, n, k);
+            roundtrip_seq::<C>(ctx, &mk::<C>(&m), &m, "parsed-huge");
+            let p = Padded::<C>::new(&mut ctx.rng, 1 + k % (noff - 1).max(1), &m, 2);
+            roundtrip_seq::<C>(ctx, &p.slice().to_owned(), &m, "sliced-and-copied-huge");
+            cell!(ctx, "{name}/huge/2^{}", usize::BITS - n.leading_zeros());
+        }
+    });
     ctx.group(&format!("{name}/sequences"), |ctx| {
         let mut lens = boundary_lengths(a.bits, 3);
         if ctx.lite {
